@@ -556,8 +556,9 @@ func (t *Teamserver) handleRequest(id string) {
 	if isExist {
 		return
 	}
-	if !t.ClientAuthenticate(pk) {
-		logger.Error("Client [User: " + pk.Body.Info["User"].(string) + "] failed to Authenticate! (" + colors.Red(client.GlobalIP) + ")")
+	UserName, isString := pk.Body.Info["User"].(string)
+	if !isString || !t.ClientAuthenticate(pk) {
+		logger.Error("Client [User: " + pk.Head.User + "] failed to Authenticate! (" + colors.Red(client.GlobalIP) + ")")
 		err := t.SendEvent(id, events.Authenticated(false))
 		if err != nil {
 			logger.Error("client (" + colors.Red(id) + ") error while sending authenticate message: " + colors.Red(err))
@@ -569,7 +570,7 @@ func (t *Teamserver) handleRequest(id string) {
 		return
 	} else {
 
-		logger.Good("User <" + colors.Blue(pk.Body.Info["User"].(string)) + "> " + colors.Green("Authenticated"))
+		logger.Good("User <" + colors.Blue(UserName) + "> " + colors.Green("Authenticated"))
 
 		client.Authenticated = true
 		client.ClientID = id
@@ -580,7 +581,7 @@ func (t *Teamserver) handleRequest(id string) {
 		}
 	}
 
-	client.Username = pk.Body.Info["User"].(string)
+	client.Username = UserName
 	packageNewUser := events.ChatLog.NewUserConnected(client.Username)
 	t.EventAppend(packageNewUser)
 	t.EventBroadcast(id, packageNewUser)
@@ -665,7 +666,7 @@ func (t *Teamserver) ClientAuthenticate(pk packager.Package) bool {
 
 					// check if the operator was even found
 					if UserFound {
-						if pk.Body.Info["Password"].(string) == UserPassword {
+						if Password, ok := pk.Body.Info["Password"].(string); ok && Password == UserPassword {
 							logger.Debug("User " + colors.Red(UserName) + " is authenticated")
 							return true
 						}
@@ -687,7 +688,8 @@ func (t *Teamserver) ClientAuthenticate(pk packager.Package) bool {
 		logger.Error("Not a Authenticate request")
 	}
 
-	logger.Error("Client failed to authenticate with password hash :: " + pk.Body.Info["Password"].(string))
+	Password, _ := pk.Body.Info["Password"].(string)
+	logger.Error("Client failed to authenticate with password hash :: " + Password)
 	return false
 }
 
